@@ -80,10 +80,9 @@ def vector_sum_kernel(ctx, f):
                 inner_src, clo2 = st[2][0][2]
                 if is_call(inner_src, name="enumerate") and strip_iter_calls(inner_src[2][0]) == ACC:
                     body = closure_body(P, clo2, {2: ITEM2})
-                    alts = [a for a in ((body[2] if body[0] == "phi" else (body,)) if body is not None else ())]
-                    oks_ = [a[4][0][1] for a in alts if a[0] == "agg" and a[2] == "core::result::Result" and a[3] == "Ok"]
-                    errs_ = [a for a in alts if not (a[0] == "agg" and a[2] == "core::result::Result" and a[3] == "Ok")]
-                    if len(oks_) == 1 and all(a[0] in ("residual", "errval") or (a[0] == "agg" and a[3] == "Err") for a in errs_):
+                    # the element's Ok payload: `Ok(x)` next to `?` exits, or `lookup.ok_or(e).map(|t| x)`
+                    oks_ = list(dict.fromkeys(ok_of(P, body))) if body is not None else []
+                    if len(oks_) == 1 and not (oks_[0][0] == "ok" and oks_[0][1] == body):
                         E, init, src_ok = oks_[0], r["init"][0], r["source"] == ("arg", 1)
                         why = ""
         if E is None and r is not None and r["form"] in ("fold", "try_fold") and len(r["steps"]) == 1 and res is not None:
